@@ -133,7 +133,8 @@ let handle = function
         (match Stdlib.String.split_on_char ':' tok with
          | ["V"; eph; m2; m4] -> VerifyHist.EVerify (n_of_dec eph, parse_reply m2, parse_reply m4)
          | _ -> raise (Parse ("event " ^ tok))) in
-      let states = VerifyHist.g_trace tr pd VerifyHist.g_init (Stdlib.List.map ev_of events) in
+      let evs = Array.of_list (Stdlib.List.map ev_of events) in
+      let states = VerifyHist.g_trace tr pd VerifyHist.g_init (Array.to_list evs) in
       let arr = Array.of_list states in
       let first_idx pred i =
         let r = ref (-1) in
@@ -149,7 +150,58 @@ let handle = function
                  | Some rs -> first_idx (fun s -> match s.VerifyHist.gs_resume with
                                                   | Some x -> msg_eqb x.Verify.rs_secret rs.Verify.rs_secret
                                                   | None -> false) i) in
-        Printf.sprintf "%s,%s,%s" (if st.VerifyHist.gs_live then "1" else "0") k r in
+        (* f = is a session reported WHILE this attempt is in flight (Model/VerifyConn.g_inflight of the state before) *)
+        let prev = if i = 0 then VerifyHist.g_init else arr.(i - 1) in
+        let f = (match evs.(i) with
+                 | VerifyHist.EVerify _ -> if (VerifyConn.g_inflight tr prev).VerifyHist.gs_live then "1" else "0"
+                 | _ -> "-") in
+        Printf.sprintf "%s,%s,%s,%s" (if st.VerifyHist.gs_live then "1" else "0") k r f in
+      if states = [] then "." else
+      Stdlib.String.concat " " (Stdlib.List.mapi word states)
+  | "conn" :: tr :: acc_id :: ltpk :: ios_id :: ltsk :: events ->
+      (* conn <tr> <acc_id hex> <ltpk msg> <ios_id hex> <ltsk n> <event>...   (Model/VerifyConn.v)
+         event = C:<eph n>:<m2 reply>:<m4 reply> | E | R
+         answer, one word per event:  <live>,<k>,<r>,<ran>,<f>,<link>,<klink>
+           k / r as for hist; ran = did the entry point run pair-verify (- for E / R); f = live while in flight
+           (- when no attempt ran); link = number of the current link; klink = link the keys were proved on *)
+      let tr = tr_of tr in
+      let pd = { Verify.pd_acc_id = bytes_of_hex acc_id; pd_acc_ltpk = parse_msg ltpk;
+                 pd_ios_id = bytes_of_hex ios_id; pd_ios_ltsk = n_of_dec ltsk } in
+      let ev_of tok =
+        if tok = "E" then VerifyConn.CEnd else if tok = "R" then VerifyConn.CReset else
+        (match Stdlib.String.split_on_char ':' tok with
+         | ["C"; eph; m2; m4] -> VerifyConn.CConnect (n_of_dec eph, parse_reply m2, parse_reply m4)
+         | _ -> raise (Parse ("event " ^ tok))) in
+      let evs = Array.of_list (Stdlib.List.map ev_of events) in
+      let states = VerifyConn.c_trace tr pd VerifyConn.c_init (Array.to_list evs) in
+      let arr = Array.of_list states in
+      let g c = c.VerifyConn.c_g in
+      let first_idx pred i =
+        let r = ref (-1) in
+        for j = i downto 0 do if pred (g arr.(j)) then r := j done;
+        if !r < 0 then "-" else string_of_int !r in
+      let nat_str n = string_of_int (int_of_nat n) in
+      let word i c =
+        let st = g c in
+        let k = (match st.VerifyHist.gs_keys with
+                 | None -> "-"
+                 | Some ks -> first_idx (fun s -> match s.VerifyHist.gs_keys with
+                                                  | Some x -> Verify.keys_eqb x ks | None -> false) i) in
+        let r = (match st.VerifyHist.gs_resume with
+                 | None -> "-"
+                 | Some rs -> first_idx (fun s -> match s.VerifyHist.gs_resume with
+                                                  | Some x -> msg_eqb x.Verify.rs_secret rs.Verify.rs_secret
+                                                  | None -> false) i) in
+        let prev = if i = 0 then VerifyHist.g_init else g arr.(i - 1) in
+        let ran, f = (match evs.(i) with
+                      | VerifyConn.CConnect _ ->
+                          if VerifyConn.g_needs_verify tr prev
+                          then "1", (if (VerifyConn.g_inflight tr prev).VerifyHist.gs_live then "1" else "0")
+                          else "0", "-"
+                      | _ -> "-", "-") in
+        Printf.sprintf "%s,%s,%s,%s,%s,%s,%s" (if st.VerifyHist.gs_live then "1" else "0") k r ran f
+          (nat_str c.VerifyConn.c_link)
+          (match c.VerifyConn.c_klink with None -> "-" | Some n -> nat_str n) in
       if states = [] then "." else
       Stdlib.String.concat " " (Stdlib.List.mapi word states)
   | _ -> "bad-request"
